@@ -274,6 +274,43 @@ def handcode(F, res):
             res.add([assumption("HANDCODE", "%s|hand-written codec code" % b, where(g) if g else "crates/tx3-tir/src", "hand-written code on the wire path (%s): writer/reader agreement for it is not covered by the derive argument (not decided)" % why)])
 
 
+def depth_limit(F, res, cg, roots):
+    """DEPTH: decoding keeps the library's bounded recursion.  `ciborium::from_reader` stops at 256 levels and reports an error;
+    a `from_reader_with_recursion_limit` whose limit is not a small literal (e.g. the input length) never fires, so a nesting
+    bomb overflows the stack and aborts the process instead of returning Err.  Same for serde_json's
+    `disable_recursion_limit`."""
+    reach = cg.reachable(roots)
+    n = 0
+    bad = False
+    for p in sorted(reach):
+        f = F.fns[p]
+        if not f["crate"].startswith("tx3"):
+            continue
+        for bi, t in mir.calls(f):
+            c = t.get("callee") or ""
+            if "with_recursion_limit" in c and len(t["args"]) > 1:
+                n += 1
+                lim = None
+                for o in mir.provenance(f, mir.DefUse(f), t["args"][1]):
+                    if o.kind == "const" and "int" in o.const:
+                        lim = o.const["int"] if lim is None else max(lim, o.const["int"])
+                    else:
+                        lim = "computed"
+                        break
+                key = "%s|recursion limit of the decoder" % p
+                if isinstance(lim, int) and lim <= 1024:
+                    res.add([ok("DEPTH", key, where(f, t["line"]), "literal recursion limit %d" % lim)])
+                else:
+                    bad = True
+                    res.add([finding("DEPTH", key, where(f, t["line"]), "the decoder's recursion limit is %s: it cannot stop a nesting bomb before the stack overflows (abort instead of Err)" % lim)])
+            elif "disable_recursion_limit" in c:
+                n += 1
+                bad = True
+                res.add([finding("DEPTH", "%s|recursion limit of the decoder" % p, where(f, t["line"]), "the JSON decoder's recursion limit is disabled: deeply nested input overflows the stack")])
+    if not bad and n == 0:
+        res.add([ok("DEPTH", "tx3 decoding closure|library default recursion limits", "crates/tx3-tir/src/encoding.rs", "no call overrides the decoders' built-in recursion limits")])
+
+
 def run(ctx):
     F = ctx.F
     res = Result("C11")
@@ -281,6 +318,7 @@ def run(ctx):
     res.rule("IDENT", "Utxo's Hash and PartialEq read the same fields")
     res.rule("GATE", "only versions >= MIN_SUPPORTED_VERSION are decoded; unknown version text is an error")
     res.rule("PANIC", "no undischarged panic site in the workspace part of the codec")
+    res.rule("DEPTH", "the decoders' bounded recursion is not overridden by a computed or disabled limit")
     res.rule("HANDCODE", "no hand-written function inside the closure of the derived Serialize/Deserialize impls")
     wire(F, res)
     handcode(F, res)
@@ -291,5 +329,6 @@ def run(ctx):
     roots = ["tx3_tir::encoding::from_bytes", "tx3_tir::encoding::to_bytes"] + [p for p in ("tx3_tir::encoding::decode_root",) if p in F.fns] + [
              "<tx3_tir::encoding::TirVersion as std::convert::TryFrom<&str>>::try_from"]
     c12.panic_obligations(F, res, roots, rows, cg=cg)
+    depth_limit(F, res, cg, roots)
     res.add([assumption("DEP", "ciborium/serde", "crates/tx3-tir/src/encoding.rs", "ciborium::from_reader returns Err (never panics/aborts) on arbitrary, truncated or deeply nested bytes: dependency behaviour, not decided here")])
     return res
